@@ -350,4 +350,34 @@ PROPS = {
         "trusted_base": TREE_TB + ["the join is modelled as: deferred filtered clone (FSub) + source monitor issuing Refilter(filterFn(source cache)) (JS machine in Props/C09.lean)"],
         "assumptions": ["sources are namespaced; the replication-controller join follows the (namespace-less) RC PodsFilter as is (known finding C19)"],
     },
+    "C20": {
+        "witness": "genmismatch",
+        "engines": [
+            {"go": "rest", "driver": "rest", "classify": ctrl_cls(("C20",)), "nontrivial": lambda l: l.startswith("(rest "), "resets": []},
+            {"go": "typed", "bin": "kconc", "driver": "typed", "actions": ("scenario", "tstart", "tsrv", "end"),
+             "args_quick": ["-n", "120"], "args_thorough": ["-n", "2400"],
+             "classify": ctrl_cls(("C20",)), "resets": ["scenario"],
+             "nontrivial": lambda l: l.startswith("(tobs") and ("(create (obj" in l or "(update (obj" in l or "(delete (obj" in l)},
+        ],
+        "rule": "(a) kextract regenerates Extracted/Gen.lean from /repo on every run: the token streams (imports and comments dropped) of "
+                "types/gen/template.go, the twelve types/*/generated.go, the join template literal of join/gen/main.go and the eight "
+                "join/generated_*.go, with the instantiation parameters read from the Makefile's generate rules; the 20 equalities "
+                "`instantiate… template = generated` are kernel-checked (decide +kernel) together with 'every generated file on disk has a rule'. "
+                "(b) typed engine: the pod and service packages and the untyped core run side by side (controller, subscription, monitor each) "
+                "against one fake server whose lists and watch streams mix the package's type with two foreign types; at every quiescent "
+                "point Ready, Done, cache, drained events and monitor callbacks of the typed side must equal the untyped ones restricted to "
+                "the type. (c) rest engine: all twelve typed clients x namespaces {'', a, kube-system, default, x-1} issue random List/Watch "
+                "call sequences through a recording http.RoundTripper; method, path and query of every request must equal the Lean request model. "
+                "Non-trivial: typed observations with events; every rest line.",
+        "trusted_base": TREE_TB + [
+            "kextract (harness/cmd/kextract: go/scanner tokenisation, dropping import declarations, comments and the template's `type ObjectType generic.Type`; Makefile rule parsing)",
+            "import blocks of generated files are not compared (goimports rewrites them); a wrong import cannot compile unnoticed",
+            "typed model KcacheModel/Typed.lean (adapter = type assertion; list/events/callbacks mapped through it) written by hand from types/gen/template.go; "
+            "only pod and service are run side by side — the other ten packages are covered through the source-level equalities with the same template",
+            "REST model and API table (KcacheModel/Typed.lean: apiTable) written by hand from client/client.go, types/*/client.go and the Kubernetes API group of each type; "
+            "client-go's rest.Request path/query construction is exercised for real, the HTTP transport is a recorder",
+        ],
+        "assumptions": ["objects of different types do not share a namespace/name key within one controller (typed_replay's KindStable hypothesis; "
+                        "typed_replay_needs_kind_stable shows what happens otherwise)"],
+    },
 }
